@@ -117,7 +117,12 @@ def rand_val(rng, ty):
         return (rng.choice([0, 1, rng.randint(0, 10 ** 6), rng.randint(0, U64)]), rng.randint(0, 999999999))
     if ty in ("vu64", "vf64", "vdur"):
         n = rng.choice([0, 1, 1, 2, 3, 3, 5, 17]) if r < 0.9 else rng.randint(0, 60)
-        return [rand_val(rng, ty[1:]) for _ in range(n)]
+        l = [rand_val(rng, ty[1:]) for _ in range(n)]
+        if n >= 2 and rng.random() < 0.35:
+            l[rng.randrange(n - 1)] = l[-1]              # an earlier element equal to the last one
+        if n >= 3 and rng.random() < 0.15:
+            l[rng.randrange(1, n)] = l[0]                # ... or to the first
+        return l
     raise ValueError(ty)
 
 
@@ -536,6 +541,7 @@ def gen_random(rng, n, mode):
         for _ in range(rng.randint(0, ncalls)):
             r = rng.random()
             script.append(None if r < 0.4 else ("a", rng.choice([0, 1, 2, 7, 10 ** 6, 2 ** 63])) if r < 0.55
+                          else (rng.randint(0, 11), rng.choice([9000, 9001])) if r < 0.65     # the crate's own error as payload
                           else (rng.randint(0, 11), rng.randint(1, 99)))
         out.append(Case(rand_prefix(rng, mode), dt, dc, script, calls, from_sink=rng.random() < 0.5, nested=rng.random() < 0.12))
     return out
@@ -552,7 +558,7 @@ def gen_scripts(rng):
             for vals in itertools.product([True, False], repeat=n):
                 for sc in itertools.product([None, "r", "n"] if n <= 2 else [None, "r"], repeat=n):
                     script = [None if s is None else ("a", rng.choice([0, 1, 2, 3, 10 ** 9])) if s == "n"
-                              else (rng.randint(0, 11), 10 + i) for i, s in enumerate(sc)]
+                              else (rng.randint(0, 11), rng.choice([10 + i, 10 + i, 9000, 9001])) for i, s in enumerate(sc)]
                     calls = []
                     for f, ok in zip(forms, vals):
                         k, ty, v = valid if ok else rejected
